@@ -102,6 +102,7 @@ pub fn check(c: &Case) -> CheckResult {
     let dyadic_tr = dy(&c.ctm) && dy(&c.sxf);
     let mut outside = false;
     let mut ambiguous = 0u64;
+    let mut weighted = 0u64;
     for py in 0..c.h {
         for px in 0..c.w {
             let i = (py * c.w + px) as usize;
@@ -184,6 +185,51 @@ pub fn check(c: &Case) -> CheckResult {
                         c.alpha
                     ));
                 }
+                // ... and, when the footprint is unambiguous, the 4-bit-weighted interpolation itself: weights within
+                // one sixteenth (plus the position allowance) of the fractions of (u - 0.5, v - 0.5); the
+                // interpolation is linear in each weight, so its extremes lie at the corners of that box
+                if xs.len() == 2 && ys.len() == 2 {
+                    let (fx, fy) = ((u - 0.5) - xs[0] as f64, (v - 0.5) - ys[0] as f64);
+                    let band = 1.0 / 16.0 + eps;
+                    let wxs = [(fx - band).clamp(0.0, 1.0), (fx + band).clamp(0.0, 1.0)];
+                    let wys = [(fy - band).clamp(0.0, 1.0), (fy + band).clamp(0.0, 1.0)];
+                    let t = |ix: usize, iy: usize| ch(texel(&c.img, xs[ix], ys[iy], c.repeat));
+                    let (t00, t10, t01, t11) = (t(0, 0), t(1, 0), t(0, 1), t(1, 1));
+                    let g = ch(got[i]);
+                    for k in 0..4 {
+                        let mut lo = f64::INFINITY;
+                        let mut hi = f64::NEG_INFINITY;
+                        for wx in wxs {
+                            for wy in wys {
+                                let val = (1.0 - wx) * (1.0 - wy) * t00[k] as f64 + wx * (1.0 - wy) * t10[k] as f64 + (1.0 - wx) * wy * t01[k] as f64 + wx * wy * t11[k] as f64;
+                                let val = val * a255 / 255.0;
+                                lo = lo.min(val);
+                                hi = hi.max(val);
+                            }
+                        }
+                        if (g[k] as f64) < lo - 3.0 || (g[k] as f64) > hi + 3.0 {
+                            return Err(format!(
+                                "bilinear {} image: pixel ({},{}) samples image position ({:.4},{:.4}), {:.3} and {:.3} of the way from texel ({},{}) to its right / lower neighbour; channel {} of {} is outside [{:.1}, {:.1}] +- 3, what the 4-bit-weighted interpolation of {:?} gives (alpha {})",
+                                if c.repeat { "repeat" } else { "pad" },
+                                px,
+                                py,
+                                u,
+                                v,
+                                fx,
+                                fy,
+                                xs[0],
+                                ys[0],
+                                ["a", "r", "g", "b"][k],
+                                hex(got[i]),
+                                lo,
+                                hi,
+                                [hex(pack(t00[0], t00[1], t00[2], t00[3])), hex(pack(t10[0], t10[1], t10[2], t10[3])), hex(pack(t01[0], t01[1], t01[2], t01[3])), hex(pack(t11[0], t11[1], t11[2], t11[3]))],
+                                c.alpha
+                            ));
+                        }
+                    }
+                    weighted += 1;
+                }
                 // exactly at a texel centre (exactly representable matrices): the texel itself
                 let exact_repr = c.ctm == IDENT && c.sxf[1] == 0.0 && c.sxf[2] == 0.0 && c.sxf[0].fract() == 0.0 && c.sxf[3].fract() == 0.0 && c.sxf[4].fract() == 0.0 && c.sxf[5].fract() == 0.0;
                 if exact_repr && (u - 0.5).fract() == 0.0 && (v - 0.5).fract() == 0.0 {
@@ -198,6 +244,7 @@ pub fn check(c: &Case) -> CheckResult {
         }
     }
     o.undecided = ambiguous;
+    o.class_if(weighted > 0, "bilinear-weights-judged");
     let distinct: std::collections::HashSet<u32> = c.img.data.iter().cloned().collect();
     o.nontrivial = c.img.w >= 2 && c.img.h >= 2 && distinct.len() >= 2 && (outside || !int_tr);
     o.class(match (int_tr, c.nearest, a255 < 255.0) {
@@ -224,6 +271,9 @@ fn small_xf() -> BoxedStrategy<Xf> {
         // half and quarter pixel translations: samples land exactly on texel boundaries and centres
         2 => (-24i32..=24, -24i32..=24, prop::sample::select(vec![2.0f32, 4.0])).prop_map(|(x, y, q)| [1., 0., 0., 1., x as f32 / q, y as f32 / q]),
         2 => (0.2f32..3.0, 0.2f32..3.0, -6.0f32..6.0, -6.0f32..6.0).prop_map(|(a, b, x, y)| [a, 0., 0., b, x, y]),
+        // scales a few percent above 1 (or exactly 1 on one axis) placed at the origin: every entry of the matrix
+        // has a fraction below one sixteenth, yet the sample position leaves the texel centres within a few pixels
+        1 => (prop_oneof![Just(1.0f32), 1.001f32..1.06], prop_oneof![Just(1.0f32), 1.001f32..1.06], prop_oneof![Just(0.0f32), 0.0f32..0.03], prop_oneof![Just(0.0f32), 0.0f32..0.03]).prop_map(|(a, b, x, y)| [a, 0., 0., b, x, y]),
         2 => (0.0f32..360.0, 0.3f32..2.5, -6.0f32..6.0, -6.0f32..6.0).prop_map(|(ang, s, x, y)| { let r = (ang as f64).to_radians(); let (c, sn) = (r.cos() as f32 * s, r.sin() as f32 * s); [c, sn, -sn, c, x, y] }),
         1 => (prop::sample::select(vec![3.0f32, 5.0, 2.0, -1.0]), -4i32..=4, -4i32..=4).prop_map(|(k, x, y)| [k, 0., 0., k, x as f32, y as f32]),
         // lattice matrices: every linear entry 0, 1, -1 or arbitrary, whole-number translation (unit-diagonal
